@@ -19,7 +19,10 @@ mkdir -p out/seed
 for id in "$@"; do
   log="out/seed/$(basename "$(dirname "$P")")-$(basename "$P" .diff)-$id.log"
   start=$(date +%s)
+  cp -f "evidence/$id.json" "out/seed/.evidence-$id.keep" 2>/dev/null
   ./check "$id" ${TIER:-quick} > "$log" 2>&1
   code=$?
+  # the evidence file now describes a run against a changed tree: put the one of the unchanged tree back
+  [ -f "out/seed/.evidence-$id.keep" ] && mv -f "out/seed/.evidence-$id.keep" "evidence/$id.json"
   echo "  $id exit=$code $(( $(date +%s) - start ))s $(grep -o 'violation class=[a-z-]* sig="[^"]*"' "$log" | sort | uniq -c | tr '\n' ';') $(grep -c '^VIOLATION' "$log") VIOLATION lines"
 done
